@@ -316,16 +316,31 @@ Definition taxa_block (fresh_new cs : bool) (ns : list lab) (t : btree) : M (btr
 (* probability.weighted_choice / weighted_index_choice                                          *)
 (* ------------------------------------------------------------------------------------------ *)
 
-(* for i, w in enumerate(weights): rnd -= w; if rnd < 0: return i      (falls off the end: None) *)
+(* sum(l) = ((0 + l[0]) + l[1]) + ... *)
+Definition qsum_left (l : list Q) : Q := fold_left Qplus l 0%Q.
+
+(* for i, w in enumerate(weights): rnd -= w; if rnd < 0: return i *)
 Fixpoint widx (ws : list Q) (rnd : Q) (i : nat) : option nat :=
   match ws with
   | [] => None
   | w :: r => let rnd' := (rnd - w)%Q in if Qltb rnd' 0%Q then Some i else widx r rnd' (S i)
   end.
 
+(* for i in range(len(weights) - 1, -1, -1): if weights[i] > 0: return i     (then: None) *)
+Fixpoint find_down (ws : list Q) (l : list nat) : option nat :=
+  match l with
+  | [] => None
+  | i :: r => if Qltb 0%Q (nth i ws 0%Q) then Some i else find_down ws r
+  end.
+Definition last_positive (ws : list Q) : option nat := find_down ws (rev (seq 0 (length ws))).
+
+(* the first loop, and - when rounding lets it fall through - the last positively weighted index *)
+Definition pick_index (ws : list Q) (rnd : Q) : option nat :=
+  match widx ws rnd 0 with Some i => Some i | None => last_positive ws end.
+
 (* rnd = rng.random() * sum(weights) *)
 Definition weighted_index_choice (ws : list Q) : M (option nat) :=
-  let! u := d_unit in ret (widx ws (u * qsum ws)%Q 0).
+  let! u := d_unit in ret (pick_index ws (u * qsum_left ws)%Q).
 
 (* ------------------------------------------------------------------------------------------ *)
 (* birth_death_tree (tip-count stopping rule, no GSA, extinct tips pruned, taxa assigned)       *)
@@ -337,32 +352,40 @@ Record bdst : Type := mkSt {
   s_tr : btree;                        (* the tree (seed node has identity 0) *)
   s_ext : list nat;                    (* extant_tips *)
   s_dead : list nat;                   (* extinct_tips *)
-  s_rates : list (nat * (Q * Q));      (* nd.birth_rate, nd.death_rate *)
-  s_next : nat                         (* next fresh node identity *)
+  s_brates : list (nat * Q);           (* nd.birth_rate (latest entry first) *)
+  s_drates : list (nat * Q);           (* nd.death_rate *)
+  s_next : nat;                        (* next fresh node identity *)
+  s_time : Q                           (* total_time *)
 }.
 
-Definition rates_of (P : bdp) (st : bdst) (x : nat) : Q * Q :=
-  match assoc x (s_rates st) with Some r => r | None => (p_b P, p_d P) end.
+(* nd.birth_rate / nd.death_rate; a node without the attribute gets the function's argument
+   (`if not hasattr(nd, 'birth_rate'): nd.birth_rate = birth_rate`) *)
+Definition rate_b (P : bdp) (st : bdst) (x : nat) : Q :=
+  match assoc x (s_brates st) with Some q => q | None => p_b P end.
+Definition rate_d (P : bdp) (st : bdst) (x : nat) : Q :=
+  match assoc x (s_drates st) with Some q => q | None => p_d P end.
 
 Definition bd_init (P : bdp) : bdst :=
-  mkSt (bleaf 0 0%Q) [0] [] [(0, (p_b P, p_d P))] 1.
+  mkSt (bleaf 0 0%Q) [0] [] [(0, p_b P)] [(0, p_d P)] 1 0%Q.
 
 (* restart after total extinction: extant_tips = list(initial_extant_tip_set) (= [seed]);
-   extinct_tips = []; seed.clear_child_nodes().  The seed's edge length is NOT reset. *)
+   extinct_tips = []; seed.clear_child_nodes(); total_time = 0.  The seed's edge length is NOT reset. *)
 Definition bd_restart (st : bdst) : bdst :=
-  mkSt (set_kids 0 [] (s_tr st)) [0] [] (s_rates st) (s_next st).
+  mkSt (set_kids 0 [] (s_tr st)) [0] [] (s_brates st) (s_drates st) (s_next st) 0%Q.
 
-Inductive bd_event : Type := EvBirth (x : nat) | EvDeath (x : nat) | EvRestart.
+(* rng.expovariate(rate): ZeroDivisionError for rate 0 *)
+Definition expovariate (rate : Q) : M Q :=
+  if Qeq_bool rate 0%Q then raise PyPrims.OtherErr else d_exp rate.
 
 (* one pass through the body of `while True:` after the termination test *)
 Definition bd_body (P : bdp) (st : bdst) : M bdst :=
   let ext := s_ext st in
-  let event_rates := flat_map (fun x => let '(b, d) := rates_of P st x in [b; d]) ext in
+  let event_rates := flat_map (fun x => [rate_b P st x; rate_d P st x]) ext in
   let event_nodes := flat_map (fun x => [(x, true); (x, false)]) ext in
-  let total := qsum event_rates in
-  if Qeq_bool total 0%Q then raise PyPrims.OtherErr (* expovariate(0): ZeroDivisionError *) else
-  let! w := d_exp total in
+  let total := qsum_left event_rates in
+  let! w := expovariate total in
   let tr1 := add_len_set ext w (s_tr st) in
+  let time1 := (s_time st + w)%Q in
   let norm := map (fun r => (r / total)%Q) event_rates in
   let! oi := weighted_index_choice norm in
   match oi with
@@ -376,17 +399,20 @@ Definition bd_body (P : bdp) (st : bdst) : M bdst :=
             let c1 := s_next st in
             let c2 := S (s_next st) in
             let tr2 := set_kids nd [bleaf c1 0%Q; bleaf c2 0%Q] tr1 in
-            let '(b, d) := rates_of P st nd in
+            let b := rate_b P st nd in
+            let d := rate_d P st nd in
             let! g1 := d_gauss 0%Q (p_sb P) in
             let! g2 := d_gauss 0%Q (p_sd P) in
             let! g3 := d_gauss 0%Q (p_sb P) in
             let! g4 := d_gauss 0%Q (p_sd P) in
             ret (mkSt tr2 (ext1 ++ [c1; c2]) (s_dead st)
-                      ((c2, ((b + g3)%Q, (d + g4)%Q)) :: (c1, ((b + g1)%Q, (d + g2)%Q)) :: s_rates st) (S (S (s_next st))))
+                      ((c2, (b + g3)%Q) :: (c1, (b + g1)%Q) :: s_brates st)
+                      ((c2, (d + g4)%Q) :: (c1, (d + g2)%Q) :: s_drates st)
+                      (S (S (s_next st))) time1)
           else
             match ext1 with
-            | _ :: _ => ret (mkSt tr1 ext1 (s_dead st ++ [nd]) (s_rates st) (s_next st))
-            | [] => ret (bd_restart (mkSt tr1 ext1 (s_dead st) (s_rates st) (s_next st)))
+            | _ :: _ => ret (mkSt tr1 ext1 (s_dead st ++ [nd]) (s_brates st) (s_drates st) (s_next st) time1)
+            | [] => ret (bd_restart (mkSt tr1 ext1 (s_dead st) (s_brates st) (s_drates st) (s_next st) time1))
             end
       end
   end.
@@ -492,15 +518,17 @@ Definition fbd_sim (fresh_new cs : bool) (P : bdp) (ns : list lab) (script : lis
 
 Definition pb_rate (n : nat) (b : Q) : Q := (inject_Z (Z.of_nat n) / b)%Q.
 
-(* while len(leaf_nodes) < len(taxon_namespace): ...   state = (tree, next fresh identity) *)
-Fixpoint pb_loop (fuel : nat) (N : nat) (b : Q) (t : btree) (next : nat) : M btree :=
+(* while len(leaf_nodes) < len(taxon_namespace): ...   state = (tree, next fresh identity);
+   rng.expovariate(len(leaf_nodes)/birth_rate): with birth_rate = 0 the quotient is 0 in Q and the
+   call raises (Python raises ZeroDivisionError already at the division: same result) *)
+Fixpoint pb_loop (fuel : nat) (N : nat) (b : Q) (t : btree) (next : nat) : M (btree * nat) :=
   fun r =>
     let leaves := leaf_ids t in
-    if N <=? length leaves then Done t r else
+    if N <=? length leaves then Done (t, next) r else
     match fuel with
     | O => NoFuel
     | S f =>
-        (let! w := d_exp (pb_rate (length leaves) b) in
+        (let! w := expovariate (pb_rate (length leaves) b) in
          let t1 := add_len_set leaves w t in
          let! i := d_choice (length leaves) in
          let parent := nth i leaves 0 in
@@ -512,10 +540,10 @@ Fixpoint enum_from {A} (i : nat) (l : list A) : list (A * nat) :=
   match l with [] => [] | x :: r => (x, i) :: enum_from (S i) r end.
 
 Definition pb_run (N : nat) (b : Q) : M btree :=
-  if Qeq_bool b 0%Q then raise PyPrims.OtherErr (* len(leaf_nodes)/0: ZeroDivisionError *) else
-  let! t := pb_loop N N b (bleaf 0 0%Q) 1 in
+  let! tn := pb_loop N N b (bleaf 0 0%Q) 1 in
+  let t := fst tn in
   let leaves := leaf_ids t in
-  let! w := d_exp (pb_rate (length leaves) b) in
+  let! w := expovariate (pb_rate (length leaves) b) in
   let t1 := add_len_set leaves w t in
   if length leaves <=? N then ret (set_tax (enum_from 0 leaves) t1)
   else raise PyPrims.IndexErr.     (* taxon_namespace[idx] with an empty namespace *)
